@@ -193,11 +193,22 @@ Inductive cont :=
 
 Inductive outcome := Done (r : result) | Block (k : cont).
 
+Definition acc_of (k : cont) : bytes :=
+  match k with KReadAll a => a | KReadUntil _ _ a => a | KReadExactly _ a => a | _ => [] end.
+
+
 Definition finish (e : status) (ok : result) (lost : bytes) : result :=
   match e with SOk => ok | SIndex => RRaise ExIndex lost | SFuel => RRaise ExFuel lost end.
 
-(* `await self._wait(...)`: self._waiter = create_future() *)
-Definition block (k : cont) (s : st) : st * outcome := (set_wt s Waiting, Block k).
+(* `await self._wait(...)`: a pending exception is raised first (repair 497a2a6; translated as found),
+   otherwise self._waiter = create_future() and the call suspends.  A call that raises here loses what
+   it had accumulated. *)
+Definition wait_exc (s : st) : option N := if wait_checks_exception then exc s else None.
+Definition block (k : cont) (s : st) : st * outcome :=
+  match wait_exc s with
+  | Some x => (s, Done (RRaise (ExStream x) (acc_of k)))
+  | None => (set_wt s Waiting, Block k)
+  end.
 
 (* `while not self._buffer and not self._eof` *)
 Definition need_wait (s : st) : bool := match buf s with [] => negb (eof s) | _ => false end.
@@ -384,9 +395,6 @@ Definition resume_k (k : cont) (s : st) : st * outcome :=
   | KReadExactly n acc => k_exactly (fuel_all s) n acc s
   | KReadChunk => k_readchunk s
   end.
-
-Definition acc_of (k : cont) : bytes :=
-  match k with KReadAll a => a | KReadUntil _ _ a => a | KReadExactly _ a => a | _ => [] end.
 
 (* ---- the system: stream + (at most one) suspended reader task ------------------------------ *)
 
